@@ -3,7 +3,7 @@
    2. sat w g : the writer w, started at the end of pre with k octets of room, never faults, emits
       exactly the (raw) encoding of the AD structures g k and leaves the rest untouched; closed under seq
    3. every writer of the model satisfies its abstract stage; adv_auto = spec_ads            (any b)
-   4. for b <= 256 every emitted structure has a length octet that is its length (ad_ok)
+   4. for b <= 259 every emitted structure has a length octet that is its length (ad_ok)
    5. parser soundness / completeness
    6. the structural checks of the monitor hold of spec_ads; their Prop-level meaning
    7. the monitor accepts every model trace *)
@@ -342,7 +342,7 @@ Proof.
   intros H. destruct b as [|[|b]]; try lia. reflexivity.
 Qed.
 
-(* ------------------------------------------------------------------ 4. no truncated length octet for b <= 256 *)
+(* ------------------------------------------------------------------ 4. no truncated length octet for b <= 259 *)
 Lemma ad_size_le_size a ads : In a ads -> ad_size a <= size ads.
 Proof.
   unfold size. induction ads as [|x t IH]; simpl; [tauto|]. intros [->|H]; [lia | specialize (IH H); lia].
@@ -363,8 +363,16 @@ Proof. destruct a; simpl; [reflexivity|]. intros H. rewrite byte_small by lia. r
 Lemma raw_ok ads : Forall ad_ok ads -> raw ads = flat_map enc ads.
 Proof. unfold raw. induction 1; simpl; [reflexivity|]. now rewrite raw_enc_ok, IHForall. Qed.
 
-Theorem spec_ads_ok c b : wf_cfg c -> b <= 256 -> Forall ad_ok (spec_ads c b).
-Proof. intros W H. apply small_ads_ok. destruct (adv_auto_spec b W). lia. Qed.
+(* 259 = 3 octets of flags + 256; the bound is tight: see tiling_refuted_at_260 *)
+Theorem spec_ads_ok c b : wf_cfg c -> b <= 259 -> Forall ad_ok (spec_ads c b).
+Proof.
+  intros W H. unfold spec_ads, then_. apply Forall_app. split.
+  - unfold g_flags. destruct (3 <=? b); repeat constructor.
+  - apply small_ads_ok. destruct (writers_sat W [] (b - size (g_flags b))) as [L _].
+    unfold g_flags in *. destruct (3 <=? b) eqn:E.
+    + change (size [AD ad_flags [6%N]]) with 3 in *. lia.
+    + change (size (@nil ad)) with 0 in *. apply Nat.leb_gt in E. lia.
+Qed.
 
 (* ------------------------------------------------------------------ 5. the parser *)
 Lemma parse_complete ads : Forall ad_ok ads -> forall fuel, length (flat_map enc ads) <= fuel ->
@@ -469,11 +477,15 @@ Proof.
   unfold g_tail. match goal with |- context [2 <=? ?k] => destruct (2 <=? k) end; reflexivity.
 Qed.
 
+Ltac eval_codes :=
+  cbn [first_bad check_ad N.eqb Pos.eqb ad_flags ad_complete_name ad_short_name ad_complete_16 ad_incomplete_16
+       ad_complete_128 ad_incomplete_128 ad_appearance ad_range].
+
 Lemma chk_appearance c k : first_bad c (g_appearance (appearance c) k) = None.
 Proof.
   unfold g_appearance. destruct (appearance c) as [v|] eqn:A; [|reflexivity].
   destruct (4 <=? k); [|reflexivity].
-  cbn. rewrite A, !N.eqb_refl. reflexivity.
+  eval_codes. rewrite A, leqb_refl. reflexivity.
 Qed.
 
 Lemma chk_name c k : first_bad c (g_name (name c) k) = None.
@@ -483,9 +495,9 @@ Proof.
   apply Nat.leb_gt in E. apply Nat.eqb_neq in E0.
   set (m := Nat.min (length l) (k - 2)).
   destruct (m =? length l) eqn:EM.
-  - apply Nat.eqb_eq in EM. cbn. rewrite A, EM, firstn_all, leqb_refl.
+  - apply Nat.eqb_eq in EM. eval_codes. rewrite A, EM, firstn_all, leqb_refl.
     destruct (0 <? length l) eqn:Z; [reflexivity | apply Nat.ltb_ge in Z; lia].
-  - apply Nat.eqb_neq in EM. cbn. rewrite A.
+  - apply Nat.eqb_neq in EM. eval_codes. rewrite A.
     assert (Hm : length (firstn m l) = m) by (rewrite firstn_length; lia).
     rewrite Hm, leqb_refl.
     destruct (0 <? m) eqn:Z; [|apply Nat.ltb_ge in Z; lia].
@@ -500,9 +512,9 @@ Proof.
   set (m := Nat.min ((k - 2) / 2) (length us)).
   assert (1 <= (k - 2) / 2) by (apply Nat.div_le_lower_bound; lia).
   destruct (m =? length us) eqn:EM.
-  - apply Nat.eqb_eq in EM. cbn. fold us. rewrite EM, firstn_all, leqb_refl.
+  - apply Nat.eqb_eq in EM. eval_codes. fold us. rewrite EM, firstn_all, leqb_refl.
     destruct (0 <? length us) eqn:Z; [reflexivity | apply Nat.ltb_ge in Z; lia].
-  - apply Nat.eqb_neq in EM. cbn. fold us.
+  - apply Nat.eqb_neq in EM. eval_codes. fold us.
     assert (Hm : length (enc16 (firstn m us)) / 2 = m).
     { rewrite enc16_length, firstn_length. replace (Nat.min m (length us)) with m by lia.
       rewrite Nat.mul_comm. apply Nat.div_mul. lia. }
@@ -519,9 +531,9 @@ Proof.
   set (m := Nat.min ((k - 2) / 16) (length us)).
   assert (1 <= (k - 2) / 16) by (apply Nat.div_le_lower_bound; lia).
   destruct (m =? length us) eqn:EM.
-  - apply Nat.eqb_eq in EM. cbn. fold us. rewrite EM, firstn_all, leqb_refl.
+  - apply Nat.eqb_eq in EM. eval_codes. fold us. rewrite EM, firstn_all, leqb_refl.
     destruct (0 <? length us) eqn:Z; [reflexivity | apply Nat.ltb_ge in Z; lia].
-  - apply Nat.eqb_neq in EM. cbn. fold us.
+  - apply Nat.eqb_neq in EM. eval_codes. fold us.
     assert (Hm : length (concat (firstn m us)) / 16 = m).
     { rewrite concat16_length by (apply Forall_firstn; exact W). rewrite firstn_length.
       replace (Nat.min m (length us)) with m by lia. rewrite Nat.mul_comm. apply Nat.div_mul. lia. }
@@ -534,7 +546,7 @@ Lemma chk_range c k : first_bad c (g_range (range c) k) = None.
 Proof.
   unfold g_range. destruct (range c) as [[mn mx]|] eqn:A; [|reflexivity].
   destruct (6 <=? k); [|reflexivity].
-  cbn. rewrite A, !N.eqb_refl. reflexivity.
+  eval_codes. rewrite A, leqb_refl. reflexivity.
 Qed.
 
 Lemma chk_tail c k : first_bad c (g_tail k) = None.
@@ -593,63 +605,51 @@ Ltac kill_eqb :=
          | H : (?a =? ?b)%N = false |- _ => apply N.eqb_neq in H
          end.
 
+Ltac fin := unfold name_clause, uuid_clause, other_clause; repeat split; try discriminate; try (simpl; tauto); auto.
+
 Lemma check_ad_meaning c a : check_ad c a = None -> name_clause c a /\ uuid_clause c a /\ other_clause c a.
 Proof.
   destruct a as [|t d]; [simpl; tauto|]. unfold check_ad.
   destruct (t =? ad_flags)%N eqn:E1; [discriminate|].
   destruct (t =? ad_complete_name)%N eqn:E2.
-  { kill_eqb. destruct (name c) as [l|]; [|discriminate].
+  { kill_eqb. destruct (name c) as [l|] eqn:NM; [|discriminate].
     destruct ((0 <? length l) && leqb d l) eqn:K; [|discriminate]. intros _.
     apply andb_prop in K. destruct K as [K1 K2]. apply leqb_eq in K2. subst l. apply Nat.ltb_lt in K1.
-    unfold name_clause, uuid_clause, other_clause. repeat split; try discriminate; auto. simpl; tauto. }
+    fin. }
   destruct (t =? ad_short_name)%N eqn:E3.
-  { kill_eqb. destruct (name c) as [l|]; [|discriminate].
+  { kill_eqb. destruct (name c) as [l|] eqn:NM; [|discriminate].
     destruct ((0 <? length d) && (length d <? length l) && leqb d (firstn (length d) l)) eqn:K; [|discriminate]. intros _.
     apply andb_prop in K. destruct K as [K K3]. apply andb_prop in K. destruct K as [K1 K2].
     apply leqb_eq in K3. apply Nat.ltb_lt in K1. apply Nat.ltb_lt in K2.
-    unfold name_clause, uuid_clause, other_clause. repeat split; try discriminate; auto.
-    - intros _. exists l. repeat split; auto.
-    - simpl; tauto. }
+    fin; intros _; exists l; auto. }
   destruct (t =? ad_complete_16)%N eqn:E4.
   { kill_eqb. destruct ((0 <? length (uuids16 c)) && leqb d (enc16 (uuids16 c))) eqn:K; [|discriminate]. intros _.
     apply andb_prop in K. destruct K as [K1 K2]. apply leqb_eq in K2. apply Nat.ltb_lt in K1.
-    unfold name_clause, uuid_clause, other_clause. repeat split; try discriminate; auto.
-    - intros Z. rewrite Z in K1. simpl in K1. lia.
-    - simpl; tauto. }
+    fin; intros Z; rewrite Z in K1; simpl in K1; lia. }
   destruct (t =? ad_incomplete_16)%N eqn:E5.
   { kill_eqb. cbv zeta.
     destruct ((0 <? length d / 2) && (length d / 2 <? length (uuids16 c)) && leqb d (enc16 (firstn (length d / 2) (uuids16 c)))) eqn:K; [|discriminate]. intros _.
     apply andb_prop in K. destruct K as [K K3]. apply andb_prop in K. destruct K as [K1 K2].
     apply leqb_eq in K3. apply Nat.ltb_lt in K1. apply Nat.ltb_lt in K2.
-    unfold name_clause, uuid_clause, other_clause. repeat split; try discriminate; auto.
-    - intros _. exists (length d / 2). auto.
-    - simpl; tauto. }
+    fin; intros _; exists (length d / 2); auto. }
   destruct (t =? ad_complete_128)%N eqn:E6.
   { kill_eqb. destruct ((0 <? length (uuids128 c)) && leqb d (concat (uuids128 c))) eqn:K; [|discriminate]. intros _.
     apply andb_prop in K. destruct K as [K1 K2]. apply leqb_eq in K2. apply Nat.ltb_lt in K1.
-    unfold name_clause, uuid_clause, other_clause. repeat split; try discriminate; auto.
-    - intros Z. rewrite Z in K1. simpl in K1. lia.
-    - simpl; tauto. }
+    fin; intros Z; rewrite Z in K1; simpl in K1; lia. }
   destruct (t =? ad_incomplete_128)%N eqn:E7.
   { kill_eqb. cbv zeta.
     destruct ((0 <? length d / 16) && (length d / 16 <? length (uuids128 c)) && leqb d (concat (firstn (length d / 16) (uuids128 c)))) eqn:K; [|discriminate]. intros _.
     apply andb_prop in K. destruct K as [K K3]. apply andb_prop in K. destruct K as [K1 K2].
     apply leqb_eq in K3. apply Nat.ltb_lt in K1. apply Nat.ltb_lt in K2.
-    unfold name_clause, uuid_clause, other_clause. repeat split; try discriminate; auto.
-    - intros _. exists (length d / 16). auto.
-    - simpl; tauto. }
+    fin; intros _; exists (length d / 16); auto. }
   destruct (t =? ad_appearance)%N eqn:E8.
-  { kill_eqb. destruct (appearance c) as [v|]; [|discriminate].
+  { kill_eqb. destruct (appearance c) as [v|] eqn:AP; [|discriminate].
     destruct (leqb d [lo16 v; hi16 v]) eqn:K; [|discriminate]. intros _. apply leqb_eq in K.
-    unfold name_clause, uuid_clause, other_clause. repeat split; try discriminate; auto.
-    - simpl; tauto.
-    - intros _. exists v. auto. }
+    fin; intros _; exists v; auto. }
   destruct (t =? ad_range)%N eqn:E9.
-  { kill_eqb. destruct (range c) as [[mn mx]|]; [|discriminate].
+  { kill_eqb. destruct (range c) as [[mn mx]|] eqn:RG; [|discriminate].
     destruct (leqb d [lo16 mn; hi16 mn; lo16 mx; hi16 mx]) eqn:K; [|discriminate]. intros _. apply leqb_eq in K.
-    unfold name_clause, uuid_clause, other_clause. repeat split; try discriminate; auto.
-    - simpl; tauto.
-    - intros _. exists mn, mx. auto. }
+    fin; intros _; exists mn, mx; auto. }
   discriminate.
 Qed.
 
@@ -700,7 +700,7 @@ Qed.
 
 Definition agrees (m : mon) (s : state) : Prop := m_adv m = rt_adv s /\ m_scan m = rt_scan s.
 
-Definition bounded (o : op) : Prop := match o with Adv b => b <= 256 | _ => True end.
+Definition bounded (o : op) : Prop := match o with Adv b => b <= 259 | _ => True end.
 
 Lemma mstep_accepts c m s o : wf_cfg c -> bounded o -> agrees m s ->
   exists m', mstep c m o (snd (step c s o)) = (Ok, m') /\ agrees m' (fst (step c s o)).
@@ -723,11 +723,11 @@ Proof.
       * rewrite RL. rewrite check_custom_copy. reflexivity.
       * destruct (b <? 2); reflexivity.
   - destruct (runtime_adv c) eqn:R; cbn [fst snd mstep]; rewrite R.
-    + eexists. split; [reflexivity|]. split; cbn; [|exact A2].
+    + eexists. split; [reflexivity|]. split; cbn [m_adv m_scan rt_adv rt_scan]; [|exact A2].
       unfold set_runtime. now rewrite firstn_min_length.
     + exists m. split; [reflexivity | split; assumption].
   - destruct (runtime_scan c) eqn:R; cbn [fst snd mstep]; rewrite R.
-    + eexists. split; [reflexivity|]. split; cbn; [exact A1|].
+    + eexists. split; [reflexivity|]. split; cbn [m_adv m_scan rt_adv rt_scan]; [exact A1|].
       unfold set_runtime. now rewrite firstn_min_length.
     + exists m. split; [reflexivity | split; assumption].
 Qed.
@@ -737,7 +737,7 @@ Lemma monitor_from_accepts c ops : wf_cfg c -> Forall bounded ops -> forall s m 
 Proof.
   intros W. induction 1 as [|o t Ho _ IH]; intros s m pos A; [reflexivity|].
   cbn [run]. destruct (step c s o) as [s' r] eqn:E. cbn [monitor_from].
-  destruct (mstep_accepts W Ho A) as (m' & M & A'). rewrite E in M, A'. cbn [fst snd] in M, A'.
+  destruct (@mstep_accepts c m s o W Ho A) as (m' & M & A'). rewrite E in M, A'. cbn [fst snd] in M, A'.
   rewrite M. apply IH. exact A'.
 Qed.
 
@@ -747,8 +747,8 @@ Theorem monitor_accepts_model c ops : wf_cfg c -> Forall bounded ops -> monitor 
 Proof. intros W B. apply monitor_from_accepts; auto. split; reflexivity. Qed.
 
 (* ------------------------------------------------------------------ semantic corollaries *)
-(* automatically generated advertising data, b <= 256 *)
-Theorem adv_wellformed c s b : wf_cfg c -> b <= 256 -> runtime_adv c = false -> custom_adv c = None ->
+(* automatically generated advertising data, b <= 259 *)
+Theorem adv_wellformed c s b : wf_cfg c -> b <= 259 -> runtime_adv c = false -> custom_adv c = None ->
   exists ads,
     advertising_data c s b = ORes (size ads) (flat_map enc ads ++ repeat fill (b - size ads)) /\
     tiles ads (flat_map enc ads) /\ size ads <= b /\ (b <= 31 -> size ads <= 31) /\
@@ -760,7 +760,7 @@ Proof.
   intros W B R C. exists (spec_ads c b).
   destruct (adv_auto_spec b W) as [L E].
   pose proof (spec_ads_ok W B) as OK.
-  destruct (check_auto_meaning (spec_checked b W)) as (PL & F1 & F2).
+  destruct (@check_auto_meaning c b (spec_ads c b) (spec_checked b W)) as (PL & F1 & F2).
   split; [|split; [split; [exact OK | reflexivity]|split; [exact L|split; [lia|split; [exact PL|split]]]]].
   - unfold advertising_data. rewrite R, C, E. unfold result. now rewrite raw_ok.
   - intros H. destruct (F1 H) as (r & -> & Hr). exists r. split; [reflexivity|].
@@ -790,7 +790,27 @@ Theorem scan_auto_wellformed c s b : runtime_scan c = false -> custom_scan c = N
   exists ads, scan_response_data c s b = ORes (size ads) (flat_map enc ads ++ repeat fill (b - size ads)) /\
               size ads <= b /\ ads = (if b <? 2 then [] else [Empty; Empty]).
 Proof.
-  intros R C. exists (if b <? 2 then [] else [Empty; Empty]).
-  unfold scan_response_data. rewrite R, C. destruct (scan_auto_good b) as [E L]. rewrite E.
-  destruct (b <? 2) eqn:Z; simpl in *; (split; [reflexivity | split; [lia | reflexivity]]).
+  intros R C. unfold scan_response_data. rewrite R, C. pose proof (scan_auto_good b) as G.
+  destruct (b <? 2) eqn:Z; destruct G as [E L]; rewrite E.
+  - exists []. split; [reflexivity | split; [apply Nat.le_0_l | reflexivity]].
+  - exists [Empty; Empty]. split; [reflexivity | split; [exact L | reflexivity]].
+Qed.
+
+(* ------------------------------------------------------------------ refutations *)
+(* the code before the fix: the automatic scan response stores two octets whatever the buffer size *)
+Definition scan_unfixed_safe_full : Prop := forall b, scan_auto_unfixed b <> None.
+Theorem scan_unfixed_refuted : ~ scan_unfixed_safe_full.
+Proof. intros H. apply (H 0). reflexivity. Qed.
+
+(* the length octet of an AD structure is a std::uint8_t store: with a name of 255 or more octets and a buffer
+   of 260 or more the shortened / complete name structure no longer carries its length and the payload is not a
+   sequence of AD structures. (Legacy advertising data is at most 31 octets; the link layer passes 31.) *)
+Definition long_name_cfg : cfg := mkcfg (Some (repeat 65%N 300)) None [] [] None None None false false.
+Definition wellformed_any_buffer_full : Prop :=
+  forall c b, wf_cfg c -> monitor c (run c (init c) [Adv b]) = None.
+Theorem tiling_refuted_at_260 : monitor long_name_cfg (run long_name_cfg (init long_name_cfg) [Adv 260]) = Some (0, t_tiling).
+Proof. vm_compute. reflexivity. Qed.
+Theorem wellformed_any_buffer_refuted : ~ wellformed_any_buffer_full.
+Proof.
+  intros H. specialize (H long_name_cfg 260 (Forall_nil _)). rewrite tiling_refuted_at_260 in H. discriminate.
 Qed.
